@@ -44,6 +44,29 @@ Theorem C19_different_shapes_rejected :
 Proof. exact different_layout_rejected. Qed.
 Print Assumptions C19_different_shapes_rejected.
 
+(* The direct-assignment gates  dst.set(<ABI value>),  member assignment in Tuple.set / Array.set and
+   dst.set(<ComputedValue>)  (each class has its own test, none goes through type_spec_is_assignable_to):
+   whatever they accept has the layout of the target (for Tuple.set with one value: of the single member). *)
+Theorem C19_set_gates_same_layout :
+  forall src dst : ty,
+    (set_admits src dst = true -> canon src = canon (set_target dst)) /\
+    (elem_admits src dst = true -> canon src = canon dst) /\
+    (computed_admits src dst = true -> canon src = canon dst).
+Proof.
+  intros src dst.
+  exact (conj (set_admits_same_layout src dst)
+              (conj (elem_admits_same_layout src dst) (computed_admits_same_layout src dst))).
+Qed.
+Print Assumptions C19_set_gates_same_layout.
+
+Theorem C19_set_gates_same_encoding :
+  forall src dst : ty,
+    (set_admits src dst = true -> forall v, arc4_encode src v = arc4_encode (set_target dst) v) /\
+    (elem_admits src dst = true -> forall v, arc4_encode src v = arc4_encode dst v) /\
+    (computed_admits src dst = true -> forall v, arc4_encode src v = arc4_encode dst v).
+Proof. exact set_gates_same_encoding. Qed.
+Print Assumptions C19_set_gates_same_encoding.
+
 (* Transaction and reference specs are not ARC-4 values (no encoding); for them the relation is:
    a transaction spec goes exactly to itself or to the generic `txn`; a reference spec exactly to itself;
    nothing else is assignable to or from them. *)
@@ -113,6 +136,12 @@ Example C19_nonvacuous_rejected :
 Proof. repeat split; try discriminate; vm_compute; reflexivity. Qed.
 
 (* the relation is directional: same layout does not imply assignable (by design of PyTeal) *)
+Example C19_nonvacuous_set_gates :
+  set_admits (TUint 8) TByte = true /\ set_admits (TUint 64) (TUint 16) = false /\
+  set_admits (TStaticBytes 32) TAddress = true /\ set_admits TDynBytes TString = false /\
+  elem_admits TAddress (TStaticBytes 32) = true /\ computed_admits (TStaticArray TByte 32) TAddress = true.
+Proof. vm_compute. repeat split; reflexivity. Qed.
+
 Example C19_directional :
   canon (TStaticBytes 32) = canon TAddress /\ assignable (TStaticBytes 32) TAddress = false /\
   assignable TAddress (TStaticBytes 32) = true.
